@@ -619,6 +619,21 @@ fn family_c01(ctx: &mut Ctx) {
             dec_event(ctx, e, kd, k, r, &orig, &rec, &pat, &[0, k - 1, k, 65535]);
         }
     }
+    // shards beyond 16 KiB (chunk counts that are not multiples of 4 / 256: tiled and unrolled loops)
+    let large: &[(&str, usize, usize, usize)] =
+        if ctx.thorough { &[("high", 3, 2, 16448), ("low", 2, 3, 20000), ("high", 5, 3, 40962), ("low", 3, 4, 16386), ("high", 2, 2, 65600), ("low", 2, 5, 33000)] } else { &[("high", 3, 2, 16448), ("low", 2, 3, 20000), ("high", 5, 3, 40962)] };
+    for (li, (rate, k, r, sb)) in large.iter().copied().enumerate() {
+        let dr = ops::default_rate_of(k, r).unwrap_or("none");
+        let orig = originals(ctx.seed, 0x1A00 + ctx.counter, k, sb);
+        let rec = crate::dut::ref_encode(rate, k, r, &orig);
+        let pats = patterns(&mut rng, k, r, 1);
+        for (ei, e) in engines.iter().enumerate() {
+            let kinds = ops::kinds_for(rate, dr, e);
+            let kd = kinds[(ei + li) % kinds.len()];
+            let pat = &pats[1 + (ei + li) % (pats.len() - 1)];
+            dec_event(ctx, e, kd, k, r, &orig, &rec, pat, &[0, k - 1, k]);
+        }
+    }
     // nearly everything received: single losses around bitmap word boundaries
     let n = if ctx.thorough { 200 } else { 40 };
     long_run_rounds(ctx, &mut rng, &engines, n, true);
@@ -642,7 +657,7 @@ fn family_c03(ctx: &mut Ctx) {
     let mut rng = util::rng(ctx.seed, 3);
     let mut cfgs: Vec<(&str, usize, usize, usize)> = vec![
         ("high", 3, 2, 2), ("low", 2, 3, 66), ("high", 5, 3, 130), ("low", 3, 5, 64), ("high", 9, 4, 34), ("low", 4, 9, 192),
-        ("high", 17, 16, 6), ("low", 16, 17, 62), ("high", 8, 4, 1026), ("low", 4, 8, 3000), ("high", 4, 2, 2112), ("low", 3, 5, 4480), ("high", 5, 5, 2050), ("high", 70, 13, 2), ("low", 13, 70, 4), ("high", 128, 32, 64), ("low", 32, 128, 64),
+        ("high", 17, 16, 6), ("low", 16, 17, 62), ("high", 8, 4, 1026), ("low", 4, 8, 3000), ("high", 4, 2, 2112), ("low", 3, 5, 4480), ("high", 5, 5, 2050), ("high", 3, 2, 16448), ("low", 2, 3, 20000), ("high", 4, 3, 40962), ("high", 70, 13, 2), ("low", 13, 70, 4), ("high", 128, 32, 64), ("low", 32, 128, 64),
         ("high", 300, 200, 2), ("low", 200, 300, 2), ("high", 1000, 100, 2), ("low", 100, 1000, 2),
         ("high", 3000, 1000, 66), ("low", 1000, 3000, 130), ("high", 1543, 511, 64),
     ];
